@@ -152,3 +152,87 @@ Example C13_table_nonvacuous :
   length entries = 18 /\ length (filter (fun e => match e_role e with Public => true | _ => false end) entries) = 13 /\
   csum_loop 7 5 [true; true; true; true; true; true; true] = Some ([false], [5; 3]).
 Proof. vm_compute. repeat split; reflexivity. Qed.
+
+(* ================================================================== second wave *)
+From RV Require Import Model.HeapGauge Proofs.HeapGaugeProofs.
+
+(* ---- signatures generated from the source (Gen/OpEntries.v, tx/opentries.py): one row per (method, variant,
+   tracked parameter) of copy / metacopy / to_complex / conj / conj_trans / scale / add / distance / canonicalise /
+   ensure_*_canonical / compress / normalize / expectation(s) / calc_*rdm / entropies / apply / contract / from_mps
+   of chains and the corresponding tree methods.  For every covered operation: all rows exist, an operand is written
+   only by configuration stores, gauge changes and the matched prefactor fold, a result-producing operation never
+   returns its operand, nothing was left un-understood by the scanner ... *)
+Theorem C13_op_table_ok : forall w o, In (w, o) covered_ops -> gen_ok w o = true.
+Proof. exact op_table_ok_each. Qed.
+Print Assumptions C13_op_table_ok.
+
+(* ... and the signature computed from the rows (rewritten fields of operands, written fields of the in-place
+   target, fields in which a built object receives a buffer of an operand) is, as sets of fields, the hand-declared
+   one; [gsig_of] -- the table [within_sig] checks the observations against (generated, intersected with the hand
+   table) -- therefore is the generated one *)
+Theorem C13_sig_tables_agree : forall w o, In (w, o) covered_ops ->
+  exists g, gen_sig w o = Some g /\ sig_agree g (sig_of w o) = true /\
+            s_rewrite (gsig_of w o) = s_rewrite g /\ s_write (gsig_of w o) = s_write g /\ s_share (gsig_of w o) = s_share g.
+Proof. exact sig_tables_agree_each. Qed.
+Print Assumptions C13_sig_tables_agree.
+
+Theorem C13_gen_ok_operand_sound : forall w o fn v p r, gen_ok w o = true -> In (fn, v, p, Operand) (op_rows w o) ->
+  find_row (fn, v, p, Operand) = Some r ->
+  (forall x, In x (o_writes r) -> benign (pw_kind x)) /\
+  (s_cat (sig_of w o) = Derive -> o_ret_is_param r = false).
+Proof. exact gen_ok_operand_sound. Qed.
+Print Assumptions C13_gen_ok_operand_sound.
+
+(* ---- gauge rewrites (write class WGauge): one push step of the canonical centre (MatrixProduct._push_cano +
+   _update_ms) with ANY decomposition kernel satisfying M = U.V leaves every amplitude unchanged -- the
+   schedule-independent algebraic lemma of C04 (C04_push_preserves_amp), re-proved here so that C13 does not depend
+   on C04's generated schedule -- hence so does any schedule of push steps (canonicalise, ensure_left_canonical,
+   ensure_right_canonical, the two sweeps of _trim_overcomplete_bonds) *)
+Theorem C13_gauge_push_preserves_amp : forall (R : CRing) (dec : gkernel R), gdec_factor dec ->
+  forall dir ds ts i s, gcfg_ok ds s -> amp (gpush dec dir ds ts i) s = amp ts s.
+Proof. exact gpush_preserves_amp. Qed.
+Print Assumptions C13_gauge_push_preserves_amp.
+
+Theorem C13_gauge_sweep_preserves_amp : forall (R : CRing) (dec : gkernel R), gdec_factor dec ->
+  forall ds tr ts s, gcfg_ok ds s -> amp (gsweep dec ds tr ts) s = amp ts s.
+Proof. exact gsweep_preserves_amp. Qed.
+Print Assumptions C13_gauge_sweep_preserves_amp.
+
+(* connection to the heap model (chain instance: cells hold site tensors / the prefactor, an object denotes
+   prefactor x amplitude on every basis configuration): a WGauge write puts the swept chain into the operand's site
+   locations (old or fresh ones) and leaves the prefactor cell alone -- the operand denotes the same.  This is the
+   Deq clause [step] demands of a rewritten operand. *)
+Theorem C13_gauge_write_preserves_den : forall (R : CRing) (dec : gkernel R), gdec_factor dec ->
+  forall ds tr (lay lay' : layout) (h h' : loc -> cell R),
+  cell_sites (slots_of lay' h') = gsweep dec ds tr (cell_sites (slots_of lay h)) ->
+  cell_coeff (slots_of lay' h') = cell_coeff (slots_of lay h) ->
+  Deq_cfg ds (den chain_interp lay' h') (den chain_interp lay h).
+Proof. exact gauge_write_preserves_den. Qed.
+Print Assumptions C13_gauge_write_preserves_den.
+
+(* the same for the WFold class: site k scaled by the prefactor, prefactor cell reset to 1 *)
+Theorem C13_fold_write_preserves_den : forall (R : CRing) ds k (lay lay' : layout) (h h' : loc -> cell R),
+  k < length (cell_sites (slots_of lay h)) ->
+  cell_sites (slots_of lay' h') = scale_at (scale3 R (cell_coeff (slots_of lay h))) k (cell_sites (slots_of lay h)) ->
+  cell_coeff (slots_of lay' h') = r1 R ->
+  Deq_cfg ds (den chain_interp lay' h') (den chain_interp lay h).
+Proof. exact fold_write_preserves_den. Qed.
+Print Assumptions C13_fold_write_preserves_den.
+
+(* the frame theorem instantiated with the chain semantics: prefactor x amplitude of every basis configuration *)
+Theorem C13_frame_chain : forall (R : CRing) ds (p : list instr) (s s' : state (cell R)),
+  wf s -> exec chain_interp (Deq_cfg ds) p s s' ->
+  forall n lay, st_obj s n = Some lay -> ~ In n (targets p) ->
+  exists lay', st_obj s' n = Some lay' /\
+    forall cfg, gcfg_ok ds cfg -> den chain_interp lay' (st_heap s') cfg = den chain_interp lay (st_heap s) cfg.
+Proof. exact frame_chain. Qed.
+Print Assumptions C13_frame_chain.
+
+(* non-vacuity: a kernel meeting the contract exists over every ring (M = 1.M); the generated table is not empty *)
+Example C13_gauge_kernel_exists : forall R : CRing, gdec_factor (triv_dec R).
+Proof. exact triv_dec_factor. Qed.
+Example C13_op_table_nonvacuous :
+  length oprows = 66 /\ length covered_ops = 39 /\
+  fset_eqb (s_rewrite (gsig_of Chain Add)) [FSite; FCoeff; FMeta] = true /\
+  s_share (gsig_of Chain Conj) = [FSite] /\ s_share (gsig_of Tree ToComplex) = [].
+Proof. vm_compute. repeat split; reflexivity. Qed.
